@@ -17,6 +17,7 @@ Helper notions (all in `Lemmas/Interp*.lean`):
   change/erase source positions; `Sim`, `ResRel` — equality of states / results up to positions.
 -/
 namespace Resynth.C14
+open Sem
 
 /-! ## 1. single assignment -/
 
